@@ -20,7 +20,7 @@ func init() {
 			"(R1) every swap-remove of a row is followed, under its 'swapped' result, by the rewrite of the moved entity's row index with the same table and row; (R2) every row added to a table is followed on all paths by the entity-index write with that table's id and that row; " +
 			"(R3) column copies of a single-entity move use the row returned by the add on the destination and the row passed to the remove on the source; (R4) every bulk move rewrites the index of the moved rows for the destination table and resets the source afterwards; " +
 			"(R5) no *table/*archetype obtained from the tables/archetypes slices is written through after a call that may grow that slice unless re-derived; (R6) every reallocation of a buffer is followed by the refresh of the raw pointer derived from it; " +
-			"(R7) archetypes are created only when the graph node has none, and graph nodes are looked up by mask before being created; (R8) no value derived from a scratch buffer of the storage (a local taken from it, a re-slice, an append to it, a helper result) is stored into a persistent field or passed to a parameter that a callee retains — tables keep the relation list they are created with, so it must be a fresh copy (path-sensitive taint analysis); (R9) in every `copy`/`reflect.Copy` between two explicit windows the window lengths are the same linear expression (the copy is otherwise silently shorter than the block a bulk move carries); (R10) every edge recorded in the archetype graph has its reverse edge with the same component key recorded in the same block. (R11) the relation list a table keeps is owned memory: at every call site of a function that hands a slice parameter on into table.relationIDs the argument is freshly allocated, another table's list, scratch (R8 decides), the result of a function returning such, or the caller's own parameter (then the caller's call sites are examined in turn) - never a reused buffer of an API object. Not decided: that sequences of correct moves yield the right component sets and values for every history (graph lookup, growth and copy-range arithmetic).",
+			"(R7) archetypes are created only when the graph node has none, and graph nodes are looked up by mask before being created; (R8) no value derived from a scratch buffer of the storage (a local taken from it, a re-slice, an append to it, a helper result) is stored into a persistent field or passed to a parameter that a callee retains — tables keep the relation list they are created with, so it must be a fresh copy (path-sensitive taint analysis); (R9) in every `copy`/`reflect.Copy` between two explicit windows the window lengths are the same linear expression (the copy is otherwise silently shorter than the block a bulk move carries); (R10) every edge recorded in the archetype graph has its reverse edge with the same component key recorded in the same block. (R11) the relation list a table keeps is owned memory: at every call site of a function that hands a slice parameter on into table.relationIDs the argument is freshly allocated, another table's list, scratch (R8 decides), the result of a function returning such, or the caller's own parameter (then the caller's call sites are examined in turn) - never a reused buffer of an API object. (R12 = C19/R5) the archetype graph searches all existing nodes before creating one. Not decided: that sequences of correct moves yield the right component sets and values for every history (graph lookup, growth and copy-range arithmetic).",
 		TrustedBase: []string{"go/types, go/cfg", "table method roles derived from signatures and field effects", "value identity by canonical expression (conversions stripped; single-assignment locals)"},
 		Rules: []Rule{
 			{ID: "C01/R1", Run: c01r1, Min: 1},
@@ -34,6 +34,7 @@ func init() {
 			{ID: "C01/R9", Run: c01r9, Min: 1},
 			{ID: "C01/R10", Run: c01r10, Min: 1},
 			{ID: "C01/R11", Run: c01r11, Min: 1},
+			{ID: "C19/R5", Run: c19r5, Min: 1},
 		},
 	})
 }
